@@ -434,24 +434,7 @@ def check(model: Model, run: Run) -> None:
                 continue
             n9 += 1
             key = norm(sub.slice)
-            safe_why = None
-            for t_, pol in flat_guards(f.node, sub):
-                nt = norm(t_).replace('(', '').replace(')', '')
-                k2 = key.replace('(', '').replace(')', '')
-                if (('%s in %s' % (k2, d)) in nt and pol) or (('%s not in %s' % (k2, d)) in nt and not pol) or (('%s in %s.keys' % (k2, d)) in nt and pol):
-                    safe_why = 'membership test'
-                if isinstance(t_, ast.Compare) and len(t_.ops) == 1 and isinstance(t_.ops[0], ast.Eq) and pol and norm(t_.left) == key:
-                    safe_why = 'equality with a constant key'
-            p_ = pm9.get(id(sub))
-            while p_ is not None and p_ is not f.node and safe_why is None:
-                if isinstance(p_, ast.Try) and any(set(handler_names(h)) & {'KeyError', 'Exception', '*', 'LookupError'} for h in p_.handlers) and any(sub is x for b in p_.body for x in ast.walk(b)):
-                    safe_why = 'KeyError handled'
-                p_ = pm9.get(id(p_))
-            if safe_why is None:
-                # the entry was created just before: D[k] = ..., D.setdefault(k, ...)
-                created = any((isinstance(n, ast.Assign) and any(isinstance(t, ast.Subscript) and dotted(t.value) == d and norm(t.slice) == key for t in n.targets)) or (isinstance(n, ast.Call) and isinstance(n.func, ast.Attribute) and n.func.attr == 'setdefault' and dotted(n.func.value) == d and n.args and norm(n.args[0]) == key) for n in walk_no_nested(f.node) if getattr(n, 'lineno', 0) <= sub.lineno)
-                if created:
-                    safe_why = 'entry created in this function'
+            safe_why = _lookup_guard(f, sub, d, pm9)
             if safe_why is None and (short(q), d) in R9_TRIAGED:
                 safe_why = 'triaged: ' + R9_TRIAGED[(short(q), d)]
             inst = '%s: %s' % (short(q), norm(sub)[:50])
@@ -461,6 +444,9 @@ def check(model: Model, run: Run) -> None:
                 run.violation(q, 'unguarded lookup %s' % norm(sub)[:60], f.loc(sub), 'the key comes from the message and nothing shows it is a key of %s: a KeyError escapes the decoder' % d, ['decode path: ' + ' -> '.join(short(x) for x in cg.path(pred, q))])
     if n9 < 10:
         run.cannot('only %d class-table lookups found on the decode path' % n9)
+
+    # ------------------------------------------------------------------ R10 / R11 outside the decoding barrier
+    _r10_r11_readers(model, run, cg, dec)
 
     # ------------------------------------------------------------------ R4 barriers
     run.rule(
@@ -848,6 +834,35 @@ def _r5_unknown(model: Model, run: Run) -> None:
 
 
 
+def _lookup_guard(f: FuncInfo, sub: ast.Subscript, d: str, pm: dict) -> str | None:
+    """Why the lookup `d[key]` cannot raise KeyError (None when nothing shows it)."""
+    key = norm(sub.slice)
+    safe_why = None
+    for t_, pol in flat_guards(f.node, sub):
+        nt = norm(t_).replace('(', '').replace(')', '')
+        k2 = key.replace('(', '').replace(')', '')
+        if (('%s in %s' % (k2, d)) in nt and pol) or (('%s not in %s' % (k2, d)) in nt and not pol) or (('%s in %s.keys' % (k2, d)) in nt and pol):
+            safe_why = 'membership test'
+        if isinstance(t_, ast.Compare) and len(t_.ops) == 1 and isinstance(t_.ops[0], ast.Eq) and pol and norm(t_.left) == key:
+            safe_why = 'equality with a constant key'
+    p_ = pm.get(id(sub))
+    while p_ is not None and p_ is not f.node and safe_why is None:
+        if isinstance(p_, ast.Try) and any(set(handler_names(h)) & {'KeyError', 'Exception', '*', 'LookupError'} for h in p_.handlers) and any(sub is x for b in p_.body for x in ast.walk(b)):
+            safe_why = 'KeyError handled'
+        p_ = pm.get(id(p_))
+    p_ = pm.get(id(sub))
+    while p_ is not None and p_ is not f.node and safe_why is None:
+        if isinstance(p_, (ast.For, ast.AsyncFor)) and norm(p_.target) == key and norm(p_.iter) in (d, d + '.keys()', 'list(%s)' % d, 'sorted(%s)' % d):
+            safe_why = 'the key comes from iterating over the table'
+        p_ = pm.get(id(p_))
+    if safe_why is None:
+        # the entry was created just before: D[k] = ..., D.setdefault(k, ...)
+        created = any((isinstance(n, ast.Assign) and any(isinstance(t, ast.Subscript) and t is not sub and dotted(t.value) == d and norm(t.slice) == key for t in n.targets)) or (isinstance(n, ast.Call) and isinstance(n.func, ast.Attribute) and n.func.attr == 'setdefault' and dotted(n.func.value) == d and n.args and norm(n.args[0]) == key) for n in walk_no_nested(f.node) if getattr(n, 'lineno', 0) <= sub.lineno)
+        if created:
+            safe_why = 'entry created in this function'
+    return safe_why
+
+
 # class-table lookups whose key is known to be present although no guard shows it (confirmed by reading)
 R9_TRIAGED = {
     ('Attribute.unpack', 'cls.cache'): 'the per-code cache is created when the attribute class is registered; reached only when caching is on',
@@ -912,3 +927,291 @@ def _r7_notify_text(model: Model, run: Run) -> None:
                 run.violation(fi.qualname, 'peer text in the Notify explanation: %s' % norm(t)[:70], fi.loc(c), "a string the peer chose can reach bytes(data, 'ascii') in Notify.__init__ (%s): one non-ASCII character raises UnicodeEncodeError instead of the NOTIFICATION" % why)
     if n < 100:
         run.cannot('only %d Notify sites with a computed text found' % n)
+
+
+# ---------------------------------------------------------------------------------------------- R10 / R11
+MESSAGE_BASE = 'exabgp.bgp.message.message.Message'
+
+
+def _reader_functions(model: Model, cg: CallGraph, dec: set[str]) -> tuple[set[str], set[str]]:
+    """(F, F1): the functions that call Message.unpack from outside the decoders plus their direct callers;
+    F1 adds what they hand a Message to."""
+    f0 = {q for q, v in cg.edges.items() if MESSAGE_UNPACK in v and q not in dec and q in model.funcs}
+    f = f0 | {q for q, v in cg.edges.items() if v & f0 and q in model.funcs}
+    f1 = set(f)
+    for q in f:
+        fi = model.funcs[q]
+        for c in walk_no_nested(fi.node):
+            if isinstance(c, ast.Call):
+                for a in c.args:
+                    t = model.type_of(fi.module, a)
+                    if t.endswith('message.Message') or t.endswith('message.Message | None'):
+                        f1 |= {t2 for t2 in model.callees_cha(fi.module, c) if t2 in model.funcs and t2.startswith('exabgp.')}
+    return f, f1
+
+
+def _resolve_cls(model: Model, mod, name: str) -> str | None:
+    if not name:
+        return None
+    if name in mod.classes:
+        return mod.classes[name].qualname
+    head = name.split('.')[0]
+    full = mod.imports.get(head)
+    if full is not None:
+        full = full + name[len(head):]
+        if full in model.classes:
+            return full
+    last = name.rsplit('.', 1)[-1]
+    cands = [q for q in model.classes if q.endswith('.' + last) and model.is_subclass(q, MESSAGE_BASE)]
+    return cands[0] if len(cands) == 1 else None
+
+
+def _is_dict_type(model: Model, ty: str) -> bool:
+    base = ty.split('[')[0]
+    if base in ('builtins.dict', 'typing.Dict', 'collections.OrderedDict'):
+        return True
+    ci = model.classes.get(base)
+    return bool(ci and 'builtins.dict' in ci.mro)
+
+
+def _class_defines(model: Model, qn: str, attr: str) -> bool:
+    ci = model.classes.get(qn)
+    if ci is None:
+        return True  # outside the repository: unknown, assume present
+    for b in ci.mro:
+        bi = model.classes.get(b)
+        if bi is None:
+            continue
+        if attr in bi.methods or attr in bi.assigns:
+            return True
+        for st in bi.node.body:
+            if isinstance(st, ast.AnnAssign) and isinstance(st.target, ast.Name) and st.target.id == attr:
+                return True
+        for m in bi.methods.values():
+            for n in ast.walk(m.node):
+                if isinstance(n, ast.Attribute) and isinstance(n.ctx, ast.Store) and n.attr == attr and isinstance(n.value, ast.Name) and n.value.id == 'self':
+                    return True
+    return False
+
+
+def _const_class_flag(model: Model, qn: str, attr: str):
+    ci = model.classes.get(qn)
+    if ci is None:
+        return None
+    for b in ci.mro:
+        bi = model.classes.get(b)
+        if bi is None:
+            continue
+        for st in bi.node.body:
+            v = None
+            if isinstance(st, ast.AnnAssign) and isinstance(st.target, ast.Name) and st.target.id == attr:
+                v = st.value
+            elif isinstance(st, ast.Assign) and any(isinstance(t, ast.Name) and t.id == attr for t in st.targets):
+                v = st.value
+            elif isinstance(st, (ast.FunctionDef, ast.AsyncFunctionDef)) and st.name == attr:
+                return None
+            else:
+                continue
+            return v.value if isinstance(v, ast.Constant) and isinstance(v.value, bool) else None
+    return None
+
+
+def _excluded_by(model: Model, fi: FuncInfo, guards: list[tuple[ast.expr, bool]], names: set[str], group: list[str], depth: int = 0) -> set[str]:
+    """Classes of `group` that cannot be the value of one of `names` given the guards."""
+    out: set[str] = set()
+    for t_, pol in guards:
+        if isinstance(t_, ast.Call) and isinstance(t_.func, ast.Name) and t_.func.id == 'isinstance' and len(t_.args) == 2 and norm(t_.args[0]) in names:
+            ks = t_.args[1].elts if isinstance(t_.args[1], ast.Tuple) else [t_.args[1]]
+            qs = [_resolve_cls(model, fi.module, dotted(k) or '') for k in ks]
+            if any(q is None for q in qs):
+                continue
+            for g in group:
+                inside = any(model.is_subclass(g, q) for q in qs)
+                if (pol and not inside) or (not pol and inside):
+                    out.add(g)
+            continue
+        flag = None
+        if isinstance(t_, ast.Attribute) and norm(t_.value) in names:
+            flag = t_.attr
+        elif isinstance(t_, ast.Call) and isinstance(t_.func, ast.Name) and t_.func.id == 'getattr' and len(t_.args) >= 2 and norm(t_.args[0]) in names and isinstance(t_.args[1], ast.Constant):
+            flag = t_.args[1].value
+        if flag is not None:
+            for g in group:
+                v = _const_class_flag(model, g, flag)
+                if v is not None and v != pol:
+                    out.add(g)
+            continue
+        # a predicate helper whose body is `return <expr over its parameter>`
+        if isinstance(t_, ast.Call) and depth < 2 and any(norm(a) in names for a in t_.args):
+            for tq in model.callees_cha(fi.module, t_):
+                tf = model.funcs.get(tq)
+                if tf is None:
+                    continue
+                body = [x for x in tf.node.body if not (isinstance(x, ast.Expr) and isinstance(x.value, ast.Constant))]
+                if len(body) != 1 or not isinstance(body[0], ast.Return) or body[0].value is None:
+                    continue
+                params = [a.arg for a in tf.node.args.args if a.arg not in ('self', 'cls')]
+                pn = {params[i] for i, a in enumerate(t_.args) if i < len(params) and norm(a) in names}
+                from ..flow import conjuncts
+
+                sub = _excluded_by(model, tf, conjuncts(body[0].value, pol), pn, group, depth + 1)
+                out |= sub
+    return out
+
+
+def _r10_r11_readers(model: Model, run: Run, cg: CallGraph, dec: set[str]) -> None:
+    readers, handed = _reader_functions(model, cg, dec)
+    run.rule(
+        'C03.R10',
+        'outside the decoding barrier (Protocol.read_message, its callers, and what they hand the message to) a dict indexed '
+        'with a computed key is read under a membership test, a KeyError handler, an iteration over its own keys, or a '
+        'registry that covers every acceptable message type: a KeyError there ends the session without any NOTIFICATION',
+        floor=2,
+    )
+    if not any(q.endswith('.read_message') for q in readers) and len(readers) < 3:
+        run.cannot('reader functions not found (%s)' % sorted(readers))
+    run.extra['reader_functions'] = sorted(short(q) for q in handed)
+    n10 = 0
+    for q in sorted(handed):
+        f = model.funcs[q]
+        run.analysed(f)
+        pm = parent_map(f.node)
+        for sub in walk_no_nested(f.node):
+            if not (isinstance(sub, ast.Subscript) and not isinstance(sub.slice, (ast.Slice, ast.Constant))):
+                continue
+            par = pm.get(id(sub))
+            reads = isinstance(sub.ctx, ast.Load) or (isinstance(par, ast.AugAssign) and par.target is sub)
+            if not reads:
+                continue
+            if not _is_dict_type(model, model.type_of(f.module, sub.value)):
+                continue
+            n10 += 1
+            d = dotted(sub.value) or norm(sub.value)
+            why = _lookup_guard(f, sub, d, pm)
+            if why is None:
+                why = _registry_covers(model, f, sub)
+            inst = '%s: %s' % (short(q), norm(sub)[:50])
+            if why is not None:
+                run.ok(inst, why)
+            else:
+                run.violation(
+                    q,
+                    'unguarded lookup %s' % norm(sub)[:60],
+                    f.loc(sub),
+                    'the key is computed from what the peer sent (message type, family) and nothing shows it is a key of %s: the '
+                    'KeyError is raised outside the try around Message.unpack, so Peer._run ends in its unhandled-exception arm '
+                    'and the session is dropped without a NOTIFICATION' % d,
+                    [],
+                )
+    if n10 < 2:
+        run.cannot('only %d computed-key dict reads found in the reader functions' % n10)
+
+    run.rule(
+        'C03.R11',
+        'message classes that share a TYPE are indistinguishable to a TYPE test: where a reader function casts a message to one '
+        'of them, every attribute it then reads exists on all the classes with that TYPE, or an isinstance / IS_EOR guard (in '
+        'the function, or at every call site) excludes the ones that lack it - otherwise a valid message (End-of-RIB) raises '
+        'AttributeError outside the decoding barrier',
+        floor=1,
+    )
+    groups: dict[str, list[str]] = {}
+    for qn, ci in model.classes.items():
+        if not model.is_subclass(qn, MESSAGE_BASE) or qn == MESSAGE_BASE:
+            continue
+        for st in ci.node.body:
+            if isinstance(st, ast.Assign) and any(isinstance(t, ast.Name) and t.id == 'TYPE' for t in st.targets):
+                groups.setdefault(norm(st.value), []).append(qn)
+    shared = {k: sorted(v) for k, v in groups.items() if len(v) > 1}
+    run.extra['type_sharing_classes'] = {k: [short(x) for x in v] for k, v in shared.items()}
+    if not any(any(x.endswith('.EOR') for x in v) for v in shared.values()):
+        run.cannot('EOR/Update TYPE group not found (%s)' % shared)
+    n11 = 0
+    for q in sorted(handed):
+        f = model.funcs[q]
+        pm = parent_map(f.node)
+        for c in walk_no_nested(f.node):
+            if not (isinstance(c, ast.Call) and isinstance(c.func, ast.Name) and c.func.id == 'cast' and len(c.args) == 2):
+                continue
+            kq = _resolve_cls(model, f.module, dotted(c.args[0]) or '')
+            group = next((v for v in shared.values() if kq in v), None)
+            if group is None:
+                continue
+            src = norm(c.args[1])
+            par = pm.get(id(c))
+            names = {src}
+            reads: list[ast.Attribute] = []
+            if isinstance(par, ast.Attribute):
+                reads.append(par)
+            elif isinstance(par, (ast.Assign, ast.AnnAssign)):
+                tg = par.targets[0] if isinstance(par, ast.Assign) else par.target
+                if isinstance(tg, ast.Name):
+                    names.add(tg.id)
+                    reads = [n for n in walk_no_nested(f.node) if isinstance(n, ast.Attribute) and isinstance(n.ctx, ast.Load) and isinstance(n.value, ast.Name) and n.value.id == tg.id]
+            for r in reads:
+                lacking = {g for g in group if g != kq and not model.is_subclass(g, kq) and not _class_defines(model, g, r.attr)}
+                n11 += 1
+                inst = '%s: %s after cast(%s)' % (short(q), norm(r), norm(c.args[0]))
+                if not lacking:
+                    run.ok(inst, 'defined by every class of TYPE %s' % [short(g) for g in group])
+                    continue
+                ex = _excluded_by(model, f, flat_guards(f.node, r, pm) + flat_guards(f.node, c, pm), names, group)
+                left = lacking - ex
+                if left and src in {a.arg for a in f.node.args.args}:
+                    # every call site from a reader function excludes them
+                    idx = [a.arg for a in f.node.args.args if a.arg not in ('self', 'cls')].index(src)
+                    site_ex: set[str] | None = None
+                    for cq in sorted(handed):
+                        cf = model.funcs[cq]
+                        cpm = None
+                        for cc in walk_no_nested(cf.node):
+                            if isinstance(cc, ast.Call) and q in model.callees_cha(cf.module, cc) and idx < len(cc.args):
+                                cpm = cpm or parent_map(cf.node)
+                                e2 = _excluded_by(model, cf, flat_guards(cf.node, cc, cpm), {norm(cc.args[idx])}, group)
+                                site_ex = e2 if site_ex is None else (site_ex & e2)
+                    if site_ex:
+                        left -= site_ex
+                if not left:
+                    run.ok(inst, 'guards exclude %s' % sorted(short(g) for g in lacking))
+                else:
+                    run.violation(
+                        q,
+                        '%s read after cast(%s, %s); %s has no such attribute' % (r.attr, norm(c.args[0]), src, ', '.join(sorted(short(g) for g in left))),
+                        f.loc(r),
+                        'the function is reached for every message whose TYPE is %s; %s share that TYPE and do not define `%s`, so '
+                        'a valid message of that class raises AttributeError outside the decoding barrier: the session is dropped '
+                        'without a NOTIFICATION' % (next(k for k, v in shared.items() if v is group), ', '.join(sorted(short(g) for g in left)), r.attr),
+                        [],
+                    )
+    if n11 < 1:
+        run.cannot('only %d attribute reads after a cast to a TYPE-sharing message class' % n11)
+
+
+def _registry_covers(model: Model, f: FuncInfo, sub: ast.Subscript) -> str | None:
+    """`self.T[message_id]` where T is filled by a class-level decorator @reg(Message.CODE.X): every wire-acceptable message
+    type (Message.CODE.MESSAGES minus the internal NOP) has an entry."""
+    d = dotted(sub.value) or ''
+    if not d.startswith('self.') or d.count('.') != 1 or f.cls is None:
+        return None
+    ci = model.classes.get(f.cls) if isinstance(f.cls, str) else f.cls
+    if ci is None:
+        return None
+    registered: set[str] = set()
+    for m in ci.methods.values():
+        for dec in m.node.decorator_list:
+            if isinstance(dec, ast.Call) and len(dec.args) == 1:
+                a = dotted(dec.args[0]) or ''
+                if '.CODE.' in a:
+                    registered.add(a.rsplit('.', 1)[1])
+    if not registered:
+        return None
+    code = model.classes.get(MESSAGE_BASE + '.CODE')
+    wanted: set[str] = set()
+    if code is not None and 'MESSAGES' in code.assigns and isinstance(code.assigns['MESSAGES'], ast.List):
+        wanted = {e.id for e in code.assigns['MESSAGES'].elts if isinstance(e, ast.Name)} - {'NOP'}
+    else:
+        for st in (code.node.body if code else []):
+            if isinstance(st, ast.AnnAssign) and isinstance(st.target, ast.Name) and st.target.id == 'MESSAGES' and isinstance(st.value, ast.List):
+                wanted = {e.id for e in st.value.elts if isinstance(e, ast.Name)} - {'NOP'}
+    if wanted and wanted <= registered:
+        return 'registry covers every wire message type %s' % sorted(wanted)
+    return None
